@@ -300,6 +300,42 @@ def run(ctx):
                     if any(d.get("code") in disabled for d in got):
                         ctx.violation({"kind": "disabled-code-published", "variant": label}, {"got": gotn}, files=files)
                     ctx.nontrivial((label, op, tuple(sorted({d.get("code") for d in got}))))
+                if si % 3 == 2:
+                    # a new document is opened before it exists on disk, through another spelling of the workspace path (a
+                    # symbolic link); it is then saved and edited: from then on its conftest environment counts
+                    alias = ctx.scratch(f"alias{si}")
+                    os.symlink(root, os.path.join(alias, "ws"))
+                    ap = os.path.join(alias, "ws", "pkg", "test_new_doc.py")
+                    rp = os.path.join(root, "pkg", "test_new_doc.py")
+                    t1 = "def test_new():\n    v = fd\n    return fd.x\n"
+                    before = srv.seq
+                    srv.did_open(ap, t1)
+                    srv.wait_diagnostics(ap, before, timeout=20)
+                    with open(rp, "w") as fh_:
+                        fh_.write(t1)
+                    t2 = t1 + "\n\ndef test_new2(fa):\n    return fb\n"
+                    before = srv.seq
+                    srv.did_change(ap, t2)
+                    got = srv.wait_diagnostics(ap, before, timeout=20)
+                    if got is None:
+                        # published under the canonical spelling
+                        allp = srv.diag.get(path_to_uri(rp), [])
+                        got = allp[-1][1] if allp and allp[-1][0] > before else None
+                    vh.call(op="drop_db", db=db)
+                    db = vh.new_db()
+                    vh.call(op="scan_config", db=db, root=root)
+                    for t_ in cur:
+                        if t_ in last_valid:
+                            vh.call(op="analyze", db=db, path=paths[t_], text=last_valid[t_])
+                    vh.call(op="analyze", db=db, path=rp, text=t2)
+                    exp = expected_from_library(vh, db, rp, disabled)
+                    ctx.judged()
+                    gotn = sorted((norm_diag(d) for d in (got or [])), key=str)
+                    if got is None or gotn != exp:
+                        ctx.violation({"kind": "published-set-differs", "variant": label, "op": "new_document_saved_then_changed",
+                                       "missing": [str(x)[:120] for x in exp if x not in gotn][:3], "unexpected": [str(x)[:120] for x in gotn if x not in exp][:3]},
+                                      {"published_at_all": got is not None, "disabled": sorted(disabled)}, files=files | {"pkg/test_new_doc.py": t2})
+                    ctx.nontrivial((label, "new_document_through_symlink", tuple(sorted({d.get("code") for d in (got or [])}))))
                 ctx.sample({"variant": label, "toml": toml, "history": hist})
                 ctx.count("sessions")
             finally:
